@@ -4,7 +4,7 @@ import ZixModel.Properties.C03History
 The blocks of a hash table are the header (block 1) and the current entry array (block 2 at first).
 A successful resize (growing on insert, shrinking on remove) obtains the new array and then releases
 the old one; a refused resize obtains nothing and releases nothing; `zix_hash_free` releases the
-current array and the header.  The theorems are over EVERY history of insert / find / remove with any
+current array and the header.  The theorems are over EVERY history of insert / find / remove / erase-at-any-iterator with any
 pattern of allocation failures, followed by `zix_hash_free`.  The correspondence check compares this
 event sequence, call by call, with the log of the tracking allocator under the real `src/hash.c`. -/
 namespace Zix.C08Hash
@@ -376,6 +376,15 @@ theorem remove_noMem (keyOf : Nat → Nat) (t : Table) (key code : Nat) (ok : Bo
     subst hf
     rfl
 
+theorem eraseAt_noMem (keyOf : Nat → Nat) (t : Table) (i : Nat) (ok : Bool)
+    (h : (eraseAt keyOf t i ok).2.1 = .noMem) : (eraseAt keyOf t i ok).1.n = t.n := by
+  unfold eraseAt at h ⊢
+  cases hrec : recordAt t i with
+  | none => rfl
+  | some r =>
+    rw [hrec] at h
+    exact erase_noMem keyOf t i ok h
+
 end Helpers
 
 /-- Exactly once: no block is obtained twice and the released blocks are exactly the obtained ones. -/
@@ -439,9 +448,26 @@ theorem hash_refused_keeps_array (keyOf codeOf : Nat → Nat) (t : Table) (h : I
     rw [hstep.2] at hr
     rw [hstep.1]
     exact remove_noMem keyOf t key _ ok (of_decide_eq_true hr)
+  | eraseAt i ok =>
+    have hstep : (step keyOf codeOf t (.eraseAt i ok)).1 = (eraseAt keyOf t i ok).1 ∧
+        isRefused (step keyOf codeOf t (.eraseAt i ok)).2 =
+          decide ((eraseAt keyOf t i ok).2.1 = .noMem) := by
+      simp only [step]
+      generalize eraseAt keyOf t i ok = r
+      obtain ⟨t', s, o, evs⟩ := r
+      cases o <;> cases s <;> exact ⟨rfl, rfl⟩
+    rw [hstep.2] at hr
+    rw [hstep.1]
+    exact eraseAt_noMem keyOf t i ok (of_decide_eq_true hr)
 
 example : lifecycle (fun r => r) (fun _ => 7) [.insert 1 true, .insert 2 true, .insert 3 true, .insert 4 false, .insert 4 true,
       .insert 5 true, .remove 1 true, .remove 2 false, .remove 3 true, .remove 4 true] =
     [.alloc 1, .alloc 2, .alloc 3, .free 2, .alloc 4, .free 3, .refused, .alloc 5, .free 4, .alloc 6, .free 5, .free 6, .free 1] := by decide
+
+/-! erase at an iterator: a refused position (end iterator, BAD_ARG) touches no block; erasing a
+record may be refused its shrink (NO_MEM) or shrink (obtain the new array, release the old). -/
+example : lifecycle (fun r => r) (fun _ => 7) [.insert 1 true, .insert 2 true, .eraseAt 8 true, .eraseAt 7 false,
+      .eraseAt 7 true, .eraseAt 0 true] =
+    [.alloc 1, .alloc 2, .alloc 3, .free 2, .refused, .alloc 4, .free 3, .free 4, .free 1] := by decide
 
 end Zix.C08Hash
